@@ -258,15 +258,21 @@ func ruleLoadRepair(c *Ctx) {
 		c.Undec(rule, "SaveRule sites", "at least 3", "", fmt.Sprint(n))
 	}
 	// load errors and repair errors propagate
-	c.need(rule, load, "successful return", func(x ssa.Instruction) bool { r, ok := x.(*ssa.Return); return ok && retIsNilErr(r) },
-		[]Ev{newSettledEv(load, "SaveRule", callMatcher(saveRule)), newSettledEv(load, "DeleteRule", callMatcher(delRule))}, all, "a failed repair write fails the load")
-	// savePatch: every write error aborts the commit
+	c.needOnSuccess(rule, load, []Ev{newSettledEv(load, "SaveRule", callMatcher(saveRule)), newSettledEv(load, "DeleteRule", callMatcher(delRule))}, all, "a failed repair write fails the load")
+	// savePatch: every write error aborts the commit (whatever variable the error travels in)
 	sp := P.Method(plc, "RuleManager", "savePatch")
-	c.need(rule, sp, "successful return", func(x ssa.Instruction) bool { r, ok := x.(*ssa.Return); return ok && retIsNilErr(r) },
-		[]Ev{newSettledEv(sp, "SaveRule", callMatcher(saveRule)), newSettledEv(sp, "DeleteRule", callMatcher(delRule)),
-			newSettledEv(sp, "SaveRuleGroup", callMatcher(F(P.Method("server/core", "Storage", "SaveRuleGroup")))),
-			newSettledEv(sp, "DeleteRuleGroup", callMatcher(F(P.Method("server/core", "Storage", "DeleteRuleGroup"))))}, all,
+	c.needOnSuccess(rule, sp, []Ev{newSettledEv(sp, "SaveRule", callMatcher(saveRule)), newSettledEv(sp, "DeleteRule", callMatcher(delRule)),
+		newSettledEv(sp, "SaveRuleGroup", callMatcher(F(P.Method("server/core", "Storage", "SaveRuleGroup")))),
+		newSettledEv(sp, "DeleteRuleGroup", callMatcher(F(P.Method("server/core", "Storage", "DeleteRuleGroup"))))}, all,
 		"savePatch reports success only if no storage write failed")
+	// adjust: the group every rule is evaluated with is (re)assigned for all rules of the patched view,
+	// whatever the patch contains — a rule keeping the group of an earlier, never committed patch is
+	// indexed with a group configuration that was rejected
+	adj := P.Method(plc, "ruleConfigPatch", "adjust")
+	iter := F(P.Method(plc, "ruleConfigPatch", "iterateRules"))
+	c.need(rule, adj, "return", func(x ssa.Instruction) bool { _, ok := x.(*ssa.Return); return ok },
+		[]Ev{&calledEv{name: "iterateRules(assign group)", match: instrCallMatcher(iter)}}, all,
+		"every adjust walks all rules of the patched view (mutated and committed) to assign their group")
 }
 
 func init() {
